@@ -24,7 +24,7 @@ RULE = ('A case is one proof expression (thunk) of a generated module, run on 8 
 ASSUMPTIONS = ['the memoising stack gets its candidate set from a counting pre-pass over the same module, as ProofExp.serialize does']
 STACKS = ['basic', 'stateful', 'counting', 'serializing', 'pretty', 'memo(ser,count)', 'instopt(stateful)', 'memo(instopt(ser))']
 FLOORS = {'quick': {'expressions': 1000, **{f'ran:{s}': 1000 for s in STACKS}, 'empty_or_identity_instantiation': 100, 'memoizer_emitted_save_load': 50, 'run_twice': 300,
-                    'static_instantiate_expressions': 100}}
+                    'static_instantiate_expressions': 100, 'many_axioms_modules': 10}}
 FLOORS['thorough'] = dict(FLOORS['quick'], expressions=20000)
 
 
@@ -94,7 +94,11 @@ def shard(ctx):
     n = ctx.scale(250, 6000)
     for k in range(n):
         try:
-            b = mw.random_module(rng, static_instantiate=0.2, pool_rounds=rng.randint(2, 8))
+            if k % 16 == 0:
+                b = mw.many_axioms_module(rng)
+                ctx.count('many_axioms_modules')
+            else:
+                b = mw.random_module(rng, static_instantiate=0.2, pool_rounds=rng.randint(2, 8))
         except Exception as ex:
             ctx.violation('module_construction_raises:' + type(ex).__name__, 'building a module raised', {'error': repr(ex)[:300]})
             continue
